@@ -36,20 +36,281 @@ theorem fixCoords_wf (s : List Int) (c : Mat) (hs : s ≠ []) (hc : c.WF) (hn : 
       simp [hn]
   · rfl
 
-theorem all_nonneg (s : List Int) (h : ∀ e ∈ s, 0 ≤ e) : (s.all fun e => decide (0 ≤ e)) = true := by
-  simp only [List.all_eq_true, decide_eq_true_eq]
-  exact h
+theorem mat_empty_wf (n : Nat) : (Mat.empty n).WF := by
+  simp [Mat.WF, Mat.empty]
+
+theorem fixCoords_preserves_wf (s : List Int) (c : Mat) (hc : c.WF) : (fixCoords s c).WF := by
+  unfold fixCoords
+  split
+  · exact mat_empty_wf _
+  · exact hc
+
+/-! ### the generated constructor checks (tools/targets.d/C14.py), characterised
+
+Each lemma unfolds the definition translated from the current source: a change of a check in
+`COO.__init__`, `SparseArray.__init__` or `GCXS.__init__` makes it (and every theorem below) fail to check. -/
+
+theorem all_shapeEltOk_iff (s : List Int) : s.all Gen.shapeEltOk = true ↔ ∀ e ∈ s, 0 ≤ e := by
+  simp [List.all_eq_true, Gen.shapeEltOk]
+
+theorem all_gcxsShapeEltOk_iff (s : List Int) : s.all Gen.gcxsShapeEltOk = true ↔ ∀ e ∈ s, 0 ≤ e := by
+  simp [List.all_eq_true, Gen.gcxsShapeEltOk]
+
+/-- `COO.__init__`: the checks pass iff there is one value per coordinate column and one coordinate row per
+dimension; every failure is a ValueError -/
+theorem cooCtorChecks_ok_iff (nd nc dim nr : Int) : Gen.cooCtorChecks 2 nd nc dim nr = .ok () ↔ nd = nc ∧ dim = nr := by
+  unfold Gen.cooCtorChecks
+  by_cases h1 : nd = nc <;> by_cases h2 : dim = nr <;> simp [h1, h2]
+
+theorem cooCtorChecks_cases (a nd nc dim nr : Int) :
+    Gen.cooCtorChecks a nd nc dim nr = .ok () ∨ Gen.cooCtorChecks a nd nc dim nr = .error .value := by
+  unfold Gen.cooCtorChecks
+  repeat' split
+  all_goals simp
+
+/-- `GCXS.__init__`: the checks pass iff every extent is a non-negative integer, there is one value per index
+(one dimension and up) and — two dimensions and up — `indptr` has `rows + 1` entries, the first 0 and the last
+`len(indices)` -/
+theorem gcxsCtorChecks_ok_iff (shapeOk : Bool) (ndim nd ni np rows p0 pl : Int) :
+    Gen.gcxsCtorChecks 1 shapeOk ndim nd ni np rows p0 pl = .ok () ↔
+      shapeOk = true ∧ (1 ≤ ndim → nd = ni) ∧ (2 ≤ ndim → np = rows + 1 ∧ p0 = 0 ∧ pl = ni) := by
+  unfold Gen.gcxsCtorChecks
+  dsimp only
+  repeat' split
+  all_goals simp_all
+  all_goals omega
+
+/-- every failure of these checks is a ValueError -/
+theorem gcxsCtorChecks_cases (a : Int) (shapeOk : Bool) (ndim nd ni np rows p0 pl : Int) :
+    Gen.gcxsCtorChecks a shapeOk ndim nd ni np rows p0 pl = .ok ()
+      ∨ Gen.gcxsCtorChecks a shapeOk ndim nd ni np rows p0 pl = .error .value := by
+  unfold Gen.gcxsCtorChecks
+  dsimp only
+  repeat' split
+  all_goals simp
+
+/-! ### the two constructors -/
+
+/-- `COO(...)` on the load path returns an array iff the checks pass, and then it is the array made of the
+arguments (coords up to the `(ndim, 0)` normalisation of an empty array) -/
+theorem cooCtor_ok_iff (c : Mat) (d : List α) (s : List Int) (f : α) (y : Arr α) :
+    cooCtor c d s f = .ok y ↔
+      (∀ e ∈ s, 0 ≤ e) ∧ d.length = (fixCoords s c).ncols ∧ s.length = (fixCoords s c).nrows
+        ∧ y = .coo s (fixCoords s c) d f := by
+  unfold cooCtor
+  dsimp only
+  by_cases hs : s.all Gen.shapeEltOk = true
+  · have hs' := (all_shapeEltOk_iff s).mp hs
+    cases hc : Gen.cooCtorChecks 2 d.length (fixCoords s c).ncols s.length (fixCoords s c).nrows with
+    | error e =>
+      have hn : ¬ (((d.length : Int) = (fixCoords s c).ncols) ∧ ((s.length : Int) = (fixCoords s c).nrows)) := by
+        intro hh
+        rw [(cooCtorChecks_ok_iff _ _ _ _).mpr hh] at hc
+        exact absurd hc (by simp)
+      simp only [hs, not_true_eq_false, if_false]
+      constructor
+      · intro h; exact absurd h (by simp)
+      · rintro ⟨_, h1, h2, _⟩
+        exact absurd ⟨by exact_mod_cast h1, by exact_mod_cast h2⟩ hn
+    | ok u =>
+      obtain ⟨h1, h2⟩ := (cooCtorChecks_ok_iff _ _ _ _).mp hc
+      simp only [hs, not_true_eq_false, if_false, Except.ok.injEq]
+      constructor
+      · intro h; exact ⟨hs', by exact_mod_cast h1, by exact_mod_cast h2, h.symm⟩
+      · rintro ⟨_, _, _, h⟩; exact h.symm
+  · have hs' : ¬ ∀ e ∈ s, 0 ≤ e := fun h => hs ((all_shapeEltOk_iff s).mpr h)
+    simp only [hs]
+    constructor
+    · intro h; exact absurd h (by simp)
+    · rintro ⟨h, _⟩; exact absurd h hs'
 
 theorem cooCtor_wf (axesOk : List Int → Bool) (s : List Int) (c : Mat) (d : List α) (f : α)
     (hwf : (Arr.coo s c d f).WF axesOk) : cooCtor c d s f = .ok (Arr.coo s c d f) := by
-  obtain ⟨hnn, hrest⟩ := hwf
-  unfold cooCtor
-  by_cases hs : s = []
-  · subst hs
-    simp [fixCoords]
-  · obtain ⟨hc, hn, hd⟩ := hrest hs
-    simp only [fixCoords_wf s c hs hc hn, all_nonneg s hnn]
-    simp [hs, hn, hd]
+  obtain ⟨hnn, hc, hn, hd⟩ := hwf
+  have hfix : fixCoords s c = c := by
+    by_cases hs : s = []
+    · subst hs; simp [fixCoords]
+    · exact fixCoords_wf s c hs hc hn
+  exact (cooCtor_ok_iff c d s f _).mpr ⟨hnn, by rw [hfix]; exact hd, by rw [hfix]; exact hn.symm, by rw [hfix]⟩
+
+theorem rowsOf_nonneg (s : List Int) (hs : ∀ e ∈ s, 0 ≤ e) : ∀ l : List Int, 0 ≤ rowsOf s l
+  | [] => by simp [rowsOf]
+  | a :: as => by
+    unfold rowsOf
+    apply Int.mul_nonneg _ (rowsOf_nonneg s hs as)
+    rw [List.getD_eq_getElem?_getD]
+    cases h : s[a.toNat]? with
+    | none => simp
+    | some v => exact hs v (List.mem_of_getElem? h)
+
+/-- the consistency checks of `GCXS.__init__` pass iff the extents are non-negative and the triple has the
+structure `GcxsStruct`; they never say anything else -/
+theorem gcxsChecks_ok_iff (d : List α) (i p : List Int) (ca : Option (List Int)) (s : List Int) :
+    gcxsChecks d i p ca s = .ok () ↔ (∀ e ∈ s, 0 ≤ e) ∧ GcxsStruct s d i p ca := by
+  have hlen : s ≠ [] ↔ 1 ≤ (s.length : Int) := by
+    cases s <;> simp <;> omega
+  unfold gcxsChecks GcxsStruct
+  dsimp only
+  cases ca with
+  | some l =>
+    rw [gcxsCtorChecks_ok_iff, all_gcxsShapeEltOk_iff, hlen]
+    constructor
+    · rintro ⟨h1, h2, h3⟩
+      refine ⟨h1, fun h => by exact_mod_cast h2 h, fun h => ?_⟩
+      obtain ⟨a, b, c⟩ := h3 (by exact_mod_cast h)
+      have hp : p ≠ [] := by
+        intro hp
+        subst hp
+        have := rowsOf_nonneg s h1 l
+        simp at a
+        omega
+      refine ⟨l, rfl, a, ?_, ?_⟩
+      · cases p with
+        | nil => exact absurd rfl hp
+        | cons x xs => simpa using b
+      · rw [List.getLastD_eq_getLast?] at c
+        cases hq : p.getLast? with
+        | none => exact absurd (List.getLast?_eq_none_iff.mp hq) hp
+        | some v => rw [hq] at c; simpa using c
+    · rintro ⟨h1, h2, h3⟩
+      refine ⟨h1, fun h => by exact_mod_cast h2 h, fun h => ?_⟩
+      obtain ⟨l', hl, a, b, c⟩ := h3 (by exact_mod_cast h)
+      simp only [Option.some.injEq] at hl
+      subst hl
+      refine ⟨a, ?_, ?_⟩
+      · rw [List.headD_eq_head?_getD, b]; rfl
+      · rw [List.getLastD_eq_getLast?, c]; rfl
+  | none =>
+    cases hc : Gen.gcxsCtorChecks 1 (s.all Gen.gcxsShapeEltOk) (min (s.length : Int) 1) d.length i.length 0 0 0 0 with
+    | error e =>
+      have hn := mt (gcxsCtorChecks_ok_iff _ _ _ _ _ _ _ _).mpr (by rw [hc]; simp)
+      rw [all_gcxsShapeEltOk_iff] at hn
+      constructor
+      · intro h; exact absurd h (by simp)
+      · rintro ⟨h1, h2, _⟩
+        exfalso
+        apply hn
+        refine ⟨h1, fun h => by exact_mod_cast h2 (hlen.mpr (by omega)), fun h => by omega⟩
+    | ok u =>
+      obtain ⟨h1, h2, _⟩ := (gcxsCtorChecks_ok_iff _ _ _ _ _ _ _ _).mp hc
+      rw [all_gcxsShapeEltOk_iff] at h1
+      by_cases h2d : 2 ≤ s.length
+      · rw [if_pos h2d]
+        constructor
+        · intro h; exact absurd h (by simp)
+        · rintro ⟨_, _, h3⟩
+          obtain ⟨l, hl, _⟩ := h3 h2d
+          exact absurd hl (by simp)
+      · rw [if_neg h2d]
+        refine ⟨fun _ => ⟨h1, fun h => ?_, fun h => absurd h h2d⟩, fun _ => rfl⟩
+        have : (1 : Int) ≤ min (s.length : Int) 1 := by have := hlen.mp h; omega
+        exact_mod_cast h2 this
+
+theorem gcxsChecks_err (d : List α) (i p : List Int) (ca : Option (List Int)) (s : List Int) (e : Err)
+    (h : gcxsChecks d i p ca s = .error e) : e = .value ∨ (e = .type ∧ ca = none ∧ 2 ≤ s.length) := by
+  cases ca with
+  | some l =>
+    unfold gcxsChecks at h
+    dsimp only at h
+    rcases gcxsCtorChecks_cases 1 (s.all Gen.gcxsShapeEltOk) s.length d.length i.length p.length (rowsOf s l)
+      (p.headD 0) (p.getLastD 0) with hc | hc
+    · rw [hc] at h; exact absurd h (by simp)
+    · rw [hc] at h; simp only [Except.error.injEq] at h; exact Or.inl h.symm
+  | none =>
+    unfold gcxsChecks at h
+    dsimp only at h
+    rcases gcxsCtorChecks_cases 1 (s.all Gen.gcxsShapeEltOk) (min (s.length : Int) 1) d.length i.length 0 0 0 0 with hc | hc
+    · rw [hc] at h
+      dsimp only at h
+      by_cases h2 : 2 ≤ s.length
+      · rw [if_pos h2] at h; simp only [Except.error.injEq] at h; exact Or.inr ⟨h.symm, rfl, h2⟩
+      · rw [if_neg h2] at h; exact absurd h (by simp)
+    · rw [hc] at h; simp only [Except.error.injEq] at h; exact Or.inl h.symm
+
+/-- `check_compressed_axes` passes iff the axes are `None` or a non-empty, admissible list of in-range axes
+that does not name every dimension -/
+theorem checkAxes_ok_iff (axesOk : List Int → Bool) (n : Nat) (ca : Option (List Int)) :
+    checkAxes axesOk n ca = .ok () ↔
+      match ca with
+      | none => True
+      | some l => l ≠ [] ∧ l.length ≠ n ∧ axesOk l = true ∧ ∀ a ∈ l, 0 ≤ a ∧ a < (n : Int) := by
+  cases ca with
+  | none => simp [checkAxes]
+  | some l =>
+    unfold checkAxes
+    by_cases h1 : l.length = n
+    · simp [h1]
+    · by_cases h2 : axesOk l = true
+      · by_cases h3 : l = []
+        · simp [h3]
+        · by_cases h4 : (l.all fun a => decide (0 ≤ a ∧ a < (n : Int))) = true
+          · have h4' : ∀ a ∈ l, 0 ≤ a ∧ a < (n : Int) := by simpa [List.all_eq_true] using h4
+            simp only [h1, h2, h3, h4, not_true_eq_false, if_false, true_iff]
+            exact ⟨h3, h1, trivial, h4'⟩
+          · have h4' : ¬ ∀ a ∈ l, 0 ≤ a ∧ a < (n : Int) := by
+              intro hh; apply h4; simpa [List.all_eq_true] using hh
+            simp only [h1, h2, h3, h4, not_true_eq_false, if_false]
+            constructor
+            · intro h; exact absurd h (by simp)
+            · rintro ⟨_, _, _, hh⟩; exact absurd hh h4'
+      · simp [h1, h2]
+
+/-- `GCXS(...)` on the load path returns an array iff `check_compressed_axes` and the consistency checks pass, and
+then it is the array made of the arguments (axes up to the `None` for one dimension) -/
+theorem gcxsCtor_ok_iff (axesOk : List Int → Bool) (d : List α) (i p : List Int) (ca : Option (List Int))
+    (s : List Int) (f : α) (y : Arr α) :
+    gcxsCtor axesOk d i p ca s f = .ok y ↔
+      checkAxes axesOk s.length ca = .ok () ∧ (∀ e ∈ s, 0 ≤ e) ∧ GcxsStruct s d i p (normAxes s ca)
+        ∧ y = .gcxs true s d i p (normAxes s ca) f := by
+  unfold gcxsCtor
+  cases h1 : checkAxes axesOk s.length ca with
+  | error e => simp
+  | ok u =>
+    cases h2 : gcxsChecks d i p (normAxes s ca) s with
+    | error e =>
+      have := mt (gcxsChecks_ok_iff d i p (normAxes s ca) s).mpr (by rw [h2]; simp)
+      simp only [true_and]
+      constructor
+      · intro h; exact absurd h (by simp)
+      · rintro ⟨a, b, _⟩; exact absurd ⟨a, b⟩ this
+    | ok u' =>
+      obtain ⟨a, b⟩ := (gcxsChecks_ok_iff d i p (normAxes s ca) s).mp h2
+      simp only [Except.ok.injEq, true_and]
+      constructor
+      · intro h; exact ⟨a, b, h.symm⟩
+      · rintro ⟨_, _, h⟩; exact h.symm
+
+/-- admissible compressed axes exist only for two dimensions and up -/
+theorem wf_axes_two_dims {s l : List Int} (hl0 : l ≠ []) (hl2 : s.length ≠ 1)
+    (hl4 : ∀ a ∈ l, 0 ≤ a ∧ a < (s.length : Int)) : 2 ≤ s.length := by
+  cases l with
+  | nil => exact absurd rfl hl0
+  | cons a t =>
+    have h := hl4 a (List.mem_cons_self ..)
+    have h1 : (0 : Int) < s.length := Int.lt_of_le_of_lt h.1 h.2
+    omega
+
+/-- a well-formed GCXS array is accepted by the constructor, from the axes `load_npz` decodes -/
+theorem gcxsCtor_wf (axesOk : List Int → Bool) (e : Bool) (s : List Int) (d : List α) (i p : List Int)
+    (ca ca0 : Option (List Int)) (f : α) (hwf : (Arr.gcxs e s d i p ca f).WF axesOk)
+    (hca : ca0 = ca ∨ (ca = none ∧ s.length = 1)) (hcheck : ca = none → checkAxes axesOk s.length ca0 = .ok ()) :
+    gcxsCtor axesOk d i p ca0 s f = .ok (Arr.gcxs true s d i p ca f) := by
+  obtain ⟨hnn, hst, hax⟩ := hwf
+  have hnorm : normAxes s ca0 = ca := by
+    rcases hca with h | ⟨h1, h2⟩
+    · subst h
+      cases ca0 with
+      | none => simp [normAxes]
+      | some l => simp only [normAxes]; simp [hax.2.2.1]
+    · simp [normAxes, h1, h2]
+  refine (gcxsCtor_ok_iff axesOk d i p ca0 s f _).mpr ⟨?_, hnn, by rw [hnorm]; exact hst, by rw [hnorm]⟩
+  cases ca with
+  | none => exact hcheck rfl
+  | some l =>
+    rcases hca with h | ⟨h1, _⟩
+    · subst h
+      exact (checkAxes_ok_iff axesOk s.length (some l)).mpr ⟨hax.1, hax.2.1, hax.2.2.2.1, hax.2.2.2.2⟩
+    · exact absurd h1 (by simp)
 
 /-! ### fetchAll -/
 
@@ -119,6 +380,30 @@ theorem loadFrom_ok_branch {axesOk : List Int → Bool} {m : Members α} {y : Ar
       exact ⟨(cls, req), by simp, f, hf, h⟩
     · obtain ⟨b, hb, f, hf, hc⟩ := loadFrom_ok_branch h
       exact ⟨b, by simp [hb], f, hf, hc⟩
+    · exact absurd h (by simp)
+
+/-- what a `return Class(...)` that succeeded was given -/
+theorem construct_ok {axesOk : List Int → Bool} {cls : String} {f : Members α} {y : Arr α}
+    (h : construct axesOk cls f = .ok y) :
+    (cls = "COO" ∧ ∃ c d s v, lookup f "coords" = some (.mat c) ∧ lookup f "data" = some (.vals d)
+        ∧ lookup f "shape" = some (.ints s) ∧ lookup f "fill_value" = some (.val v) ∧ cooCtor c d s v = .ok y)
+    ∨ (cls = "GCXS" ∧ ∃ d i p ca s v, lookup f "data" = some (.vals d) ∧ lookup f "indices" = some (.ints i)
+        ∧ lookup f "indptr" = some (.ints p) ∧ lookup f "compressed_axes" = some (.ints ca)
+        ∧ lookup f "shape" = some (.ints s) ∧ lookup f "fill_value" = some (.val v)
+        ∧ gcxsCtor axesOk d i p (decodeAxes ca) s v = .ok y) := by
+  unfold construct at h
+  split at h
+  · rename_i hcls
+    split at h
+    · rename_i c d s v h1 h2 h3 h4
+      exact Or.inl ⟨hcls, c, d, s, v, h1, h2, h3, h4, h⟩
+    · exact absurd h (by simp)
+  · split at h
+    · rename_i hcls
+      split at h
+      · rename_i d i p ca s v h1 h2 h3 h4 h5 h6
+        exact Or.inr ⟨hcls, d, i, p, ca, s, v, h1, h2, h3, h4, h5, h6, h⟩
+      · exact absurd h (by simp)
     · exact absurd h (by simp)
 
 /-- a member map that agrees with `m` wherever it has one of the names `load_npz` asks for loads the same
